@@ -64,7 +64,8 @@ def plan(seed: int, tier: str, n_files: int):
             args["wfilter"] = "error"          # the simulated process turns warnings into errors
             tags.add("warnings_as_errors")
         elif r2 < 0.5:
-            args["table_fault_before"] = rng.randrange(0, max(1, len(order) - 2))  # transient I/O error while the special-particle table loads
+            # transient I/O error while the special-particle table loads: half of the time at the very first conversion of the process
+            args["table_fault_before"] = 0 if rng.random() < 0.5 else rng.randrange(0, max(1, len(order) - 2))
             tags.add("table_load_fault")
         jobs.append({"engine": ENGINE, "func": FUNC, "limit_s": 1500, "args": args, "tags": sorted(tags)})
     return jobs
